@@ -174,7 +174,10 @@ def canon_enum_full(f, mod, base_name, real_name):
     for v in variants:
         if v == "_Phantom":
             # the hidden variant carrying the type parameters must never be (de)serialisable
-            lines.append("enum %s phantom_attrs=%s" % (real_name, ";;".join(strip_attr(a) for a in f.all("%s::%s|attr" % (path, v)))))
+            # (`returns(..)` is what cosmwasm_schema's QueryResponses derive requires on every variant; its type lists the
+            #  parameters in first-use order and is not an observable of any property)
+            lines.append("enum %s phantom_attrs=%s" % (real_name, ";;".join(
+                x for x in (strip_attr(a) for a in f.all("%s::%s|attr" % (path, v))) if not x.startswith("returns("))))
             continue
         vp = "%s::%s" % (path, v)
         lines.append("variant %s::%s fields=%s" % (real_name, v, show_fields(fields_of(f, vp))))
